@@ -66,7 +66,7 @@ func (c *pipelineConn) exchange(ctx context.Context, m []byte) (*dnsmsg.Msg, err
 	}
 	defer c.deleteQueueC(qid)
 
-	err = c.write(m, qid)
+	err = c.write(ctx, m, qid)
 	if err != nil {
 		return nil, err
 	}
@@ -149,7 +149,9 @@ func (c *pipelineConn) readLoop() {
 	}
 }
 
-func (c *pipelineConn) write(m []byte, qid uint16) (err error) {
+// write writes m with qid to the connection. For tcp, the write will not
+// block longer than the deadline of ctx.
+func (c *pipelineConn) write(ctx context.Context, m []byte, qid uint16) (err error) {
 	if verifhook.On {
 		verifhook.Ev("pc.write", c, int(qid), m)
 	}
@@ -160,8 +162,20 @@ func (c *pipelineConn) write(m []byte, qid uint16) (err error) {
 		if err != nil {
 			return err
 		}
+		// The peer may stop reading. Don't let a blocked write hold the
+		// exchange longer than its deadline. The deadline is shared by all
+		// writers of this connection, which is fine: a write that timed out
+		// may have sent a partial frame, so the connection is closed anyway.
+		if ddl, ok := ctx.Deadline(); ok {
+			c.c.SetWriteDeadline(ddl)
+		} else {
+			c.c.SetWriteDeadline(time.Time{})
+		}
 		_, err = c.c.Write(b)
 		pool.ReleaseBuf(b)
+		if err != nil {
+			c.closeWithErr(fmt.Errorf("write err, %w", err))
+		}
 		return err
 	}
 
